@@ -234,7 +234,7 @@ pub struct EqCase {
 
 fn same<T: ProtoFmt + PartialEq + Debug>(what: &str, a: &T, b: &T) -> Result<(), String> {
     if a != b {
-        return Err(format!("harness: {what}: the two constructions are not equal: {a:?} vs {b:?}"));
+        return Err(format!("{what}: the two constructions of one value are not equal (by ==): {a:?} vs {b:?}"));
     }
     if encode(a) != encode(b) {
         return Err(format!("{what}: equal values encode to different bytes: {a:?} -> {} vs {}", hex(&encode(a)), hex(&encode(b))));
@@ -248,12 +248,20 @@ fn check_eq(case: &EqCase, st: &mut Stats) -> Result<(), String> {
     match case.kind % 6 {
         0 => {
             // timeout certificate: same groups inserted in two orders; vote map must be serialised sorted
-            let (a, _) = g_timeout_qc(ch);
-            let mut entries: Vec<_> = a.map.clone().into_iter().collect();
+            let (groups, view, signature, _) = g_timeout_qc_parts(ch);
+            let a = v2::TimeoutQC { view: view.clone(), map: groups.iter().cloned().collect(), signature: signature.clone() };
+            let mut entries = groups.clone();
             entries.reverse();
             let r = ch.below(entries.len().max(1));
             entries.rotate_left(r);
-            let b = v2::TimeoutQC { view: a.view, map: entries.into_iter().collect(), signature: a.signature.clone() };
+            let b = v2::TimeoutQC { view, map: entries.into_iter().collect(), signature };
+            // groups with different votes are different entries, whichever leaf the votes differ in
+            if a.map.len() != groups.len() || b.map.len() != groups.len() {
+                return Err(format!(
+                    "TimeoutQC: {} groups with pairwise different votes (by ==) occupy {} / {} map entries depending on the insertion order: votes {:?}",
+                    groups.len(), a.map.len(), b.map.len(), groups.iter().map(|g| &g.0).collect::<Vec<_>>()
+                ));
+            }
             st.class("timeout_qc_insertion_order");
             if a.map.len() >= 2 {
                 st.nontrivial(common::fingerprint(&encode(&a)));
